@@ -166,8 +166,13 @@ func runC14(c *Ctx) {
 	if sel := c.fn(pkgComplex, "complexityWalker.selectionSetComplexity"); sel != nil {
 		c.selectionSwitch(sel)
 	}
-	if fc := c.fn(pkgComplex, "complexityWalker.fieldComplexity"); fc != nil {
-		c.customGuard(fc)
+	// by role, not by name: whichever function of the package returns ExecutableSchema.Complexity's first result
+	nGuard := 0
+	for _, fn := range c.moduleFuncs(func(p string) bool { return p == pkgComplex }) {
+		nGuard += c.customGuard(fn)
+	}
+	if nGuard == 0 {
+		c.R.Bad("fieldComplexity/custom-guard", "complexity/", "no function of package complexity returns the schema's custom complexity")
 	}
 	if sel := c.W.Func(pkgComplex, "complexityWalker.selectionSetComplexity"); sel != nil {
 		c.everySelectionCounted(sel)
@@ -326,20 +331,24 @@ func (c *Ctx) selectionSwitch(fn *ssa.Function) {
 		"selection kinds without a case in the complexity walker (their cost is not counted): "+strings.Join(missing, ","))
 }
 
-func (c *Ctx) customGuard(fn *ssa.Function) {
-	// the return of the custom value must be guarded by ok==true and custom >= child
-	child := ssa.Value(fn.Params[len(fn.Params)-2])
-	found := false
+func (c *Ctx) customGuard(fn *ssa.Function) int {
+	// the return of the custom value must be guarded by ok==true and custom >= child, child being the value handed to
+	// ExecutableSchema.Complexity as childComplexity
+	found := 0
 	for _, r := range an.Returns(fn) {
+		if len(r.Results) == 0 {
+			continue
+		}
 		e, isExt := r.Results[0].(*ssa.Extract)
 		if !isExt || e.Index != 0 {
 			continue
 		}
 		call, isCall := e.Tuple.(*ssa.Call)
-		if !isCall || !strings.HasSuffix(an.CalleeOf(call).FullName(), "ExecutableSchema).Complexity") {
+		if !isCall || !strings.HasSuffix(an.CalleeOf(call).FullName(), "ExecutableSchema).Complexity") || len(call.Call.Args) < 4 {
 			continue
 		}
-		found = true
+		child := call.Call.Args[3]
+		found++
 		okFact, geFact := false, false
 		for _, f := range an.Facts(r) {
 			if f.Op == token.ILLEGAL && !f.Neg {
@@ -347,19 +356,17 @@ func (c *Ctx) customGuard(fn *ssa.Function) {
 					okFact = true
 				}
 			}
-			if f.Op == token.GEQ && f.X == ssa.Value(e) && f.Y == child {
+			if f.Op == token.GEQ && f.X == ssa.Value(e) && (f.Y == child || an.SameVar(f.Y, child)) {
 				geFact = true
 			}
-			if f.Op == token.LEQ && f.Y == ssa.Value(e) && f.X == child {
+			if f.Op == token.LEQ && f.Y == ssa.Value(e) && (f.X == child || an.SameVar(f.X, child)) {
 				geFact = true
 			}
 		}
 		c.R.Check(okFact && geFact, "fieldComplexity/custom-guard", c.ipos(r), "custom complexity returned only when ok && custom >= childComplexity",
 			sprintf("a custom complexity is returned without the guard (ok tested: %v, >= child tested: %v): a custom function can hide its children's cost", okFact, geFact))
 	}
-	if !found {
-		c.R.Bad("fieldComplexity/custom-guard", c.pos(fn.Pos()), "fieldComplexity never returns the schema's custom complexity")
-	}
+	return found
 }
 
 func c14SwitchComplete(c *Ctx) {
